@@ -93,8 +93,12 @@ CONFIGS = [
     Config("cplex_paper", lambda: ExactAlgorithmCplexForPaperOptim1(), ("standin",), exact=True, cplex_only=True,
            family="exact"),
     Config("enum_exact", lambda: get_algorithm(Algorithm.EXACT), BOTH, exact=True, all_flag_ok=False, family="exact"),
+    Config("enum_exact_noopt", lambda: get_algorithm(Algorithm.EXACT, {"optimize": False}), BOTH, exact=True,
+           family="exact"),
     Config("parcons_default", lambda: ParCons(), BOTH, family="parcons"),
     Config("enum_parcons", lambda: get_algorithm(Algorithm.PARCONS), BOTH, family="parcons"),
+    Config("enum_parcons_copeland_b2", lambda: get_algorithm(Algorithm.PARCONS, {
+        "auxiliary_algorithm": CopelandMethod(), "bound_for_exact": 2}), BOTH, family="parcons"),
     Config("parcons_kwik_b2", lambda: ParCons(auxiliary_algorithm=KwikSortRandom(), bound_for_exact=2), BOTH, rng=True,
            family="parcons"),
     Config("parcons_bioco_b0", lambda: ParCons(auxiliary_algorithm=BioCo(), bound_for_exact=0), ("absent",),
@@ -105,6 +109,8 @@ CONFIGS = [
            family="parcons"),
     Config("bioconsert", lambda: BioConsert(), family="bioconsert"),
     Config("enum_bioconsert", lambda: get_algorithm(Algorithm.BIOCONSERT), family="bioconsert"),
+    Config("enum_bioconsert_borda", lambda: get_algorithm(Algorithm.BIOCONSERT, {
+        "starting_algorithms": [BordaCount()]}), family="bioconsert"),
     Config("bioconsert_copeland", lambda: BioConsert([CopelandMethod()]), family="bioconsert"),
     Config("bioconsert_kwik", lambda: BioConsert([KwikSortRandom()]), rng=True, family="bioconsert"),
     Config("bioconsert_borda_pick", lambda: BioConsert([BordaCount(), PickAPerm()]), family="bioconsert"),
